@@ -372,6 +372,28 @@ def check(P: Project, R: Report) -> None:
             in_except = any(call in list(walk_local(h)) for t in walk_local(m.node) if isinstance(t, ast.Try) for h in t.handlers if not (h.type is not None and ast.unparse(h.type) in ("KeyError", "LookupError")))
             if in_except and env["kind"] == "error":
                 R.ob("R4", f"{name}: failing tool/resource handler → -32603", code == -32603, f"{m.module.rel}:{call.lineno}", f"code {code}")
+        # the unknown-name arm answers -32602 whatever the name is: nothing on it can raise before the answer is built
+        # (an exception there reaches handle_message, which answers -32603 "Internal error" instead)
+        for i_ in walk_local(m.node):
+            if isinstance(i_, ast.If) and isinstance(i_.test, ast.Compare) and len(i_.test.ops) == 1 and isinstance(i_.test.ops[0], ast.NotIn) and ast.unparse(i_.test.comparators[0]) in ("self._tools", "self._resources"):
+                def arm_pred(node_, st_, an_, m=m):
+                    hv_ = tuple(h.name for h in an_.handler_stack if h.name)
+                    for c_ in calls_in_order(node_):
+                        if is_benign_call(c_, hv_) or envelope_call(P, m, c_) is not None:
+                            continue
+                        g_ = P.resolve_call(m, c_)
+                        if isinstance(g_, FuncInfo) and contained(P, g_):
+                            continue
+                        if isinstance(c_.func, ast.Attribute) and c_.func.attr in ("get", "keys", "items", "values") and ast.unparse(c_.func.value).startswith("self._"):
+                            continue
+                        return {ANY_EXC}
+                    return set()
+
+                aa_, ao_ = run_paths(ast.Module(body=i_.body, type_ignores=[]), fallible_pred=arm_pred)
+                esc_ = sorted({(getattr(n_, "lineno", 0), ast.unparse(n_)[:60]) for _s, t_, n_ in ao_.exc if t_ != "Cancelled"})
+                R.ob("R4", f"{name}: nothing on the unknown-name arm can raise before the -32602 answer", not esc_, f"{m.module.rel}:{i_.lineno}",
+                     f"`{esc_[0][1] if esc_ else ''}` (line {esc_[0][0] if esc_ else 0}) may raise for some names (a number, a boolean, a nested value are all legal JSON for `name`/`uri`): the request is then answered -32603 \"Internal error\" by the dispatcher instead of -32602",
+                     sample=f"R4 {name}: unknown-name arm is the envelope construction only")
         # user callables are invoked inside a try covering Exception
         for c in walk_local(m.node):
             if isinstance(c, ast.Call) and isinstance(c.func, ast.Subscript) and isinstance(c.func.slice, ast.Constant) and c.func.slice.value == "handler":
